@@ -14,6 +14,10 @@ Proof. intros H. unfold bind. destruct (m s); auto. Qed.
 Lemma bind_ret_l {A B} (a : A) (f : A -> M B) s : bind (ret a) f s = f a s.
 Proof. reflexivity. Qed.
 
+Lemma bind_bind_ret {A B C} (a : A) (f : A -> B) (k : B -> M C) s :
+  bind (bind (ret a) (fun x => ret (f x))) k s = k (f a) s.
+Proof. reflexivity. Qed.
+
 Section Unfold.
 Variable d : dialect.
 
